@@ -1241,3 +1241,165 @@ Proof.
   apply (days_count v a c Ha HAL ds val_init s' ds' Hin); [|exact H].
   split; [constructor|intros x []].
 Qed.
+
+(* ------------------------------------------------------------ the side condition holds for built journals *)
+(* every posting that posting.Builder creates has the zero Value: through ParseDirective (accrual
+   expansion included) and the day builder.  (Same skeleton as the pair invariant, Proofs/PairProofs.v.) *)
+Definition val0 (p : posting) : Prop := is_zero (p_val p) = true.
+Definition txn_val0 (t : txn) : Prop := Forall val0 (t_postings t).
+Definition day_val0 (d : day) : Prop := Forall txn_val0 (d_txns d).
+Definition directive_val0 (d : directive) : Prop := match d with DTxn t => txn_val0 t | _ => True end.
+
+Lemma pair_build_val0 cr db com q : Forall val0 (pair_build cr db com q dec_nil).
+Proof.
+  unfold pair_build. destruct (is_neg q || is_zero q && is_neg dec_nil); repeat constructor.
+Qed.
+
+Lemma postings_create_val0 bs ps : postings_create bs = MOk ps -> Forall val0 ps.
+Proof.
+  revert ps. induction bs as [|b bs IH]; intros ps H; cbn in H.
+  - inversion H. constructor.
+  - destruct (check_account (b_credit b)); try discriminate. cbn in H.
+    destruct (check_account (b_debit b)); try discriminate. cbn in H.
+    destruct (postings_create bs) as [ps'| |]; try discriminate. cbn in H. inversion H.
+    apply Forall_app. split; [apply pair_build_val0|apply IH; reflexivity].
+Qed.
+
+Lemma accrual_parts_val0 desc tg acc p amount rem n i ends :
+  Forall txn_val0 (accrual_parts desc tg acc p amount rem n i ends).
+Proof.
+  revert i. induction ends as [|dt rest IH]; intros i; cbn [accrual_parts]; constructor.
+  - unfold txn_val0. cbn [t_postings]. apply pair_build_val0.
+  - apply IH.
+Qed.
+
+Lemma expand_posting_val0 rebook t ac p l : expand_posting_gen rebook t ac p = MOk l -> Forall txn_val0 l.
+Proof.
+  unfold expand_posting_gen. intros H.
+  assert (H1 : Forall txn_val0 (if rebook (p_acc p)
+    then [mkTxn (t_date t) (t_desc t) (pair_build (ac_account ac) (p_acc p) (p_com p) (p_qty p) dec_nil) (t_targets t)]
+    else [])).
+  { destruct (rebook (p_acc p)); [|constructor]. constructor; [|constructor].
+    unfold txn_val0. cbn [t_postings]. apply pair_build_val0. }
+  destruct (is_IE (p_acc p)).
+  - destruct (new_partition _ _ _); try discriminate.
+    destruct (quo_rem _ _ _) as [[amount rem]|]; try discriminate.
+    inversion H. apply Forall_app. split; [exact H1|apply accrual_parts_val0].
+  - inversion H; subst. exact H1.
+Qed.
+
+Lemma expand_postings_val0 rebook t ac ps l : expand_postings_gen rebook t ac ps = MOk l -> Forall txn_val0 l.
+Proof.
+  revert l. induction ps as [|p ps IH]; intros l H; cbn in H.
+  - inversion H. constructor.
+  - destruct (expand_posting_gen rebook t ac p) as [l1| |] eqn:E1; try discriminate. cbn in H.
+    destruct (expand_postings_gen rebook t ac ps) as [l2| |] eqn:E2; try discriminate. cbn in H. inversion H.
+    apply Forall_app. split; [eapply expand_posting_val0; eauto|apply IH; reflexivity].
+Qed.
+
+Lemma txn_create_val0 s l : txn_create s = MOk l -> Forall txn_val0 l.
+Proof.
+  unfold txn_create, txn_create_gen. intros H.
+  destruct (postings_create (st_bookings s)) as [ps| |] eqn:E; try discriminate. cbn in H.
+  destruct (st_accrual s) as [ac|].
+  - unfold expand_gen in H. destruct (check_account (ac_account ac)); try discriminate. cbn in H.
+    eapply expand_postings_val0; eauto.
+  - inversion H. repeat constructor. unfold txn_val0; cbn. eapply postings_create_val0; eauto.
+Qed.
+
+Lemma parse_directive_val0 s l : parse_directive s = MOk l -> Forall directive_val0 l.
+Proof.
+  destruct s; cbn; intros H.
+  - inversion H. repeat constructor.
+  - destruct (check_account acc); try discriminate. inversion H. repeat constructor.
+  - destruct (check_account acc); try discriminate. inversion H. repeat constructor.
+  - destruct (check_balances bals); try discriminate. inversion H. repeat constructor.
+  - destruct (txn_create t) as [ts| |] eqn:E; try discriminate. cbn in H. inversion H.
+    apply txn_create_val0 in E. clear - E. induction E; constructor; auto.
+  - inversion H. constructor.
+Qed.
+
+Lemma parse_directives_val0 l ds : parse_directives l = MOk ds -> Forall directive_val0 ds.
+Proof.
+  revert ds. induction l as [|s l IH]; intros ds H; cbn in H.
+  - inversion H. constructor.
+  - destruct (parse_directive s) as [d1| |] eqn:E1; try discriminate. cbn in H.
+    destruct (parse_directives l) as [d2| |] eqn:E2; try discriminate. cbn in H. inversion H.
+    apply Forall_app. split; [eapply parse_directive_val0; eauto|apply IH; reflexivity].
+Qed.
+
+Lemma upd_day_val0 days d f :
+  Forall day_val0 days -> (forall x, day_val0 x -> day_val0 (f x)) -> Forall day_val0 (upd_day days d f).
+Proof.
+  intros Hd Hf. induction Hd as [|x rest Hx Hrest IH]; cbn [upd_day].
+  - constructor; [apply Hf; constructor|constructor].
+  - destruct (d =? d_date x)%Z; [constructor; auto|].
+    destruct (d <? d_date x)%Z; constructor; auto.
+    + apply Hf. constructor.
+Qed.
+
+Lemma builder_add_val0 b d : Forall day_val0 (b_days b) -> directive_val0 d -> Forall day_val0 (b_days (builder_add b d)).
+Proof.
+  intros Hb Hd. destruct d; cbn [builder_add b_days]; apply upd_day_val0; auto.
+  intros x Hx. unfold day_val0, add_txn_day in *. cbn [d_txns]. apply Forall_app. split; [exact Hx|repeat constructor; exact Hd].
+Qed.
+
+Lemma builder_of_val0 ds : Forall directive_val0 ds -> Forall day_val0 (b_days (builder_of ds)).
+Proof.
+  unfold builder_of. assert (H0 : Forall day_val0 (b_days new_builder)) by constructor.
+  revert H0. generalize new_builder. induction ds as [|d ds IH]; intros b Hb Hds; cbn [fold_left]; [exact Hb|].
+  inversion Hds; subst. apply IH; [apply builder_add_val0; assumption|assumption].
+Qed.
+
+Lemma builder_touch_val0 b dates : Forall day_val0 (b_days b) -> Forall day_val0 (b_days (builder_touch b dates)).
+Proof.
+  unfold builder_touch. cbn [b_days]. generalize (b_days b). induction dates as [|d ds IH]; intros days H; cbn [fold_left]; [exact H|].
+  apply IH. apply upd_day_val0; auto.
+Qed.
+
+Lemma days_val0_in_ok days :
+  Forall day_val0 days -> Forall (fun p => account_ok (p_acc p) = true) (days_postings days) ->
+  Forall posting_in_ok (days_postings days).
+Proof.
+  intros Hv Ha. assert (Hv' : Forall val0 (days_postings days)).
+  { unfold days_postings, day_postings. rewrite Forall_concat, Forall_map. eapply Forall_impl; [|exact Hv].
+    intros d Hd. rewrite Forall_concat, Forall_map. exact Hd. }
+  rewrite Forall_forall in *. intros p Hp. split; [apply Ha; exact Hp|].
+  intros _. apply is_zero_value. apply Hv'. exact Hp.
+Qed.
+
+(* the days the balance command hands to its pipeline (with or without the days that --close
+   touches) satisfy the side condition as soon as the posting accounts are syntactically valid *)
+Theorem built_days_in_ok l dl dates touch :
+  parse_directives l = MOk dl ->
+  let days := b_days (if touch : bool then builder_touch (builder_of dl) dates else builder_of dl) in
+  Forall (fun p => account_ok (p_acc p) = true) (days_postings days) ->
+  Forall posting_in_ok (days_postings days).
+Proof.
+  intros H days Ha. apply days_val0_in_ok; [|exact Ha].
+  pose proof (builder_of_val0 dl (parse_directives_val0 l dl H)) as Hb.
+  unfold days. destruct touch; [apply builder_touch_val0; exact Hb|exact Hb].
+Qed.
+
+(* ------------------------------------------------------------ the prefix of the balance command *)
+(* Model/Cli.v balance_report: load, (touch), check, prices, valuate, then filter/close/query.
+   For the days that leave the valuate stage of that pipeline: *)
+From Knut Require Model.Cli Proofs.LedgerProofs.
+
+Theorem mark_to_market_balance_prefix l dl dates touch repaired v a c s0 days0 s1 ds1 s2 ds2 :
+  parse_directives l = MOk dl ->
+  let days := b_days (if touch : bool then builder_touch (builder_of dl) dates else builder_of dl) in
+  Forall (fun p => account_ok (p_acc p) = true) (days_postings days) ->
+  account_ok a = true -> is_AL a = true -> c <> v -> days <> [] ->
+  process_days (Cli.check_proc_current repaired) check_init days = ROk (s0, days0) ->
+  process_days (compute_prices_proc v) (mkCp [] None) days0 = ROk (s1, ds1) ->
+  process_days (valuate_proc v) (mkVal None None []) ds1 = ROk (s2, ds2) ->
+  Qabs (cell_value a c (days_postings ds2)
+        - cell_qty a c (days_postings days) * price_value (price_on v days (pred (length days))) c)
+    <= inject_Z (cell_count a c (days_postings ds2)) * eps8.
+Proof.
+  intros Hl days Hacc Ha HAL Hcv Hne H0 H1 H2.
+  pose proof (LedgerProofs.check_current_stage_id _ _ _ _ _ H0) as E. subst days0.
+  apply (mark_to_market_pipeline v a c days s1 ds1 s2 ds2 Ha HAL Hcv Hne); [|exact H1|exact H2].
+  exact (built_days_in_ok l dl dates touch Hl Hacc).
+Qed.
